@@ -6,7 +6,7 @@ tools/record_trial.py)."""
 import json, os, shutil, sys, glob
 
 letter, origin, ids = sys.argv[1], sys.argv[2], sys.argv[3:]
-wtprefix = os.environ.get("WT_PREFIX", "/tmp/w10-")
+wtprefix = os.environ.get("WT_PREFIX", "/tmp/w11-")
 for pid in ids:
     wt = wtprefix + pid
     dst = f"/verif/seeded/{pid}-{letter}"
